@@ -706,6 +706,318 @@ def report_round3(ctx, c, r):
 
 
 
+# ---------------------------------------------------------------- round 3b: ill-conditioned zero clauses
+ILL_ESTS = ["ls", "ls_icpt", "default", "r2f_cut12", "r2f_tik30", "r2f_grid"]
+
+
+def make_ill_estimator(name):
+    from sklearn.linear_model import LinearRegression
+    from skmatter.linear_model import Ridge2FoldCV
+    if name == "ls":
+        return LinearRegression(fit_intercept=False)
+    if name == "ls_icpt":
+        return LinearRegression()
+    if name == "r2f_cut12":
+        return Ridge2FoldCV(alphas=np.array([1e-12]), alpha_type="relative", regularization_method="cutoff")
+    if name == "r2f_tik30":
+        return Ridge2FoldCV(alphas=np.array([1e-30]))
+    if name == "r2f_grid":
+        return Ridge2FoldCV(alphas=np.geomspace(1e-9, 0.9, 20), alpha_type="relative",
+                            regularization_method="cutoff", random_state=SEED0, shuffle=True,
+                            scoring="neg_root_mean_squared_error", n_jobs=1)
+    return None
+
+
+def gen_ill_case(rng):
+    """full column rank, prescribed singular spectrum (cond 1e3 .. 1e8), Y = X A (GRE) or X Q (GRD)"""
+    G = lambda r, c: np.array([[rng.gauss(0, 1) for _ in range(c)] for _ in range(r)])  # noqa: E731
+    n, p = rng.randint(16, 40), rng.randint(2, 5)
+    est = rng.choice(ILL_ESTS)
+    # estimators that SELECT a cut-off by cross-validation on half of the rows: keep the folds
+    # clearly above the smallest relative cut-off 1e-9 of the default grid
+    selects = est in ("default", "r2f_grid")
+    cond = 10.0 ** rng.uniform(3, 6 if selects else 8)
+    if rng.random() < 0.5:
+        scales = np.geomspace(1.0, 1.0 / cond, p)
+    else:
+        scales = np.array([rng.uniform(0.2, 1.0) for _ in range(p - 1)] + [1.0 / cond])
+    Q = _orth(rng, p)
+    X = (G(n, p) * scales) @ Q
+    if rng.random() < 0.5:
+        X = X + np.array([rng.gauss(0, 1) for _ in range(p)])
+    kind = rng.choice(["gre_weak", "gre_weak", "gre_generic", "grd"])
+    if kind == "grd":
+        A = _orth(rng, p)
+    elif kind == "gre_weak":
+        A = Q.T @ np.diag(1.0 / scales) @ G(p, rng.randint(1, 5))     # all directions equally visible in Y
+    else:
+        A = G(p, rng.randint(1, 5))
+    Y = X @ A
+    idx = list(range(n))
+    rng.shuffle(idx)
+    ntr = rng.randint(max(2 * p + 4, n // 2), n - 1)
+    mode = rng.choice(["default", "same", "overlap", "both"])
+    tr = te = None
+    if mode == "same":
+        tr, te = idx[:ntr], idx[:ntr]
+    elif mode == "overlap":
+        tr, te = idx[:ntr], idx[ntr // 2:]
+    elif mode == "both":
+        tr, te = idx[:ntr], idx[ntr:]
+    return dict(kind="illcond", sub=kind, X=X.tolist(), Y=Y.tolist(), A=A.tolist(), est=est, mode=mode,
+                train_idx=tr, test_idx=te, measure="grd" if kind == "grd" else "gre", target_cond=cond)
+
+
+def ill_bound(c):
+    """(tolerance, info, gate): rounding-level bound for the zero clause of this case.
+    A backward-stable least-squares solver returns the exact solution of a problem perturbed by
+    O(eps) * |Xs|_2, so the residual of a CONTAINED target is O(eps) * |Xs|_2 * |B| with B the
+    standardised map (Ys = Xs B); the orthogonal regression of GRD adds the sensitivity of the
+    orthogonal polar factor, O(eps) * cond(Xs).  Constants: 1000 resp. 50, more than 100 x the
+    largest ratio seen on the unchanged tree (8 resp. 0.12)."""
+    X, Y, A = np.array(c["X"]), np.array(c["Y"]), np.array(c["A"])
+    tr, _ = resolve_split(c)
+    Xc, Yc = X[tr] - X[tr].mean(axis=0), Y[tr] - Y[tr].mean(axis=0)
+    sX, sY = math.sqrt(float((Xc ** 2).mean(axis=0).sum())), math.sqrt(float((Yc ** 2).mean(axis=0).sum()))
+    sv = np.linalg.svd(Xc / sX, compute_uv=False)
+    cond = float(sv[0] / sv[-1]) if sv[-1] > 0 else float("inf")
+    nB = float(np.linalg.norm(A * sX / sY))
+    tol = 1000 * EPS * math.sqrt(len(tr)) * nB + 64 * EPS
+    if c["measure"] == "grd":
+        tol += 50 * EPS * cond
+    gate = None
+    if len(tr) < 2 * X.shape[1] + 2 or not cond < 1e9:
+        gate = "too few training rows / cond beyond 1e9"
+    elif c["est"] in ("default", "r2f_grid"):
+        # the cross-validated cut-off must keep every direction (else the estimator regularises,
+        # and GRE(X, XA) > 0 is intended): its weights on the standardised block vs least squares
+        est = make_ill_estimator("r2f_grid")
+        est.fit(Xc / sX, Yc / sY)
+        Wls = np.linalg.lstsq(Xc / sX, Yc / sY, rcond=None)[0]
+        if np.linalg.norm(est.coef_.T - Wls) > 1e-2 * np.linalg.norm(Wls):
+            gate = "cross-validation selected an active cut-off"
+    return tol, dict(cond=cond, normB=nB, n_train=len(tr)), gate
+
+
+def run_ill_case(c):
+    import skmatter.metrics as M
+    X, Y = np.array(c["X"]), np.array(c["Y"])
+    kw = dict(train_idx=None if c["train_idx"] is None else np.array(c["train_idx"]),
+              test_idx=None if c["test_idx"] is None else np.array(c["test_idx"]))
+    name = "reconstruction_distortion" if c["measure"] == "grd" else "reconstruction_error"
+    try:
+        with np.errstate(all="ignore"):
+            pw = getattr(M, "pointwise_global_" + name)(X, Y, estimator=make_ill_estimator(c["est"]), **kw)
+            g = getattr(M, "global_" + name)(X, Y, estimator=make_ill_estimator(c["est"]), **kw)
+        return dict(pw=[float(x) for x in np.ravel(pw)], g=float(g))
+    except Exception as e:  # noqa
+        return dict(error="%s: %s" % (type(e).__name__, str(e)[:200]))
+
+
+def ill_verdict(c, r):
+    """None, ('gated', why) or a message"""
+    tol, info, gate = ill_bound(c)
+    if gate:
+        return ("gated", gate)
+    if "error" in r:
+        return "%s(%s) raised %s on a full-column-rank source of condition %.2g" % (c["measure"], c["est"], r["error"], info["cond"])
+    pw = np.array(r["pw"])
+    if not np.all(np.isfinite(pw)) or np.any(pw < 0):
+        return "non-finite or negative pointwise %s" % c["measure"]
+    if abs(math.sqrt(float((pw ** 2).mean())) - r["g"]) > 1e-9 * max(1.0, abs(r["g"])) + 1e-300:
+        return "global value is not the root mean square of the pointwise values"
+    if float(pw.max()) > tol:
+        what = "GRD(X, XQ)" if c["measure"] == "grd" else "GRE(X, XA)"
+        return ("%s = %.3g is not zero up to rounding for a full-column-rank X (estimator %s, cond(Xs) = %.3g, "
+                "|B| = %.3g, rounding-level bound %.3g)" % (what, float(pw.max()), c["est"], info["cond"], info["normB"], tol))
+    return None
+
+
+# ---------------------------------------------------------------- round 3b: object histories
+R2F_SCORINGS = ["neg_root_mean_squared_error", "neg_mean_squared_error", None, "r2", "neg_mean_absolute_error"]
+
+
+def _r2f_grid(rng):
+    if rng.random() < 0.5:
+        return dict(alpha_type="absolute", alphas=[float(x) for x in np.geomspace(10.0 ** rng.uniform(-8, -4), 10.0 ** rng.uniform(0, 3), rng.randint(4, 10))])
+    return dict(alpha_type="relative", alphas=[float(x) for x in np.geomspace(10.0 ** rng.uniform(-9, -5), 0.9, rng.randint(4, 10))])
+
+
+def gen_history(rng, quick):
+    """ONE estimator object and ONE scaler object passed to a sequence of measure calls, with
+    set_params between the calls"""
+    G = lambda r, c: np.array([[rng.gauss(0, 1) for _ in range(c)] for _ in range(r)])  # noqa: E731
+    etype = rng.choice(["r2f", "r2f", "r2f", "ridge", "lr"])
+    if etype == "r2f":
+        init = dict(_r2f_grid(rng), regularization_method=rng.choice(["tikhonov", "cutoff"]),
+                    scoring=rng.choice(R2F_SCORINGS), random_state=rng.randint(0, 99), shuffle=True)
+    elif etype == "ridge":
+        init = dict(alpha=10.0 ** rng.uniform(-4, 1), fit_intercept=rng.random() < 0.5)
+    else:
+        init = dict(fit_intercept=rng.random() < 0.5)
+    steps = []
+    for _ in range(rng.randint(3, 5)):
+        n, p, q = rng.randint(16, 28), rng.randint(1, 5), rng.randint(2, 5)
+        col = np.geomspace(1, 10.0 ** rng.uniform(-2, 0), p)
+        X = G(n, p) * col
+        # heteroscedastic targets: one needs the weak source directions, the others are mostly noise
+        w = G(p, 1) / col[:, None]
+        Y = np.hstack([rng.uniform(0.5, 4) * (X @ w + 0.2 * G(n, 1)),
+                       rng.uniform(0.3, 2) * (G(n, q - 1) + 0.3 * X @ G(p, q - 1))])
+        ch = {}
+        if etype == "r2f":
+            for _c in range(rng.randint(1, 2)):
+                what = rng.choice(["scoring", "scoring", "grid", "method", "seed"])
+                if what == "scoring":
+                    ch["scoring"] = rng.choice(R2F_SCORINGS)
+                elif what == "grid":
+                    ch.update(_r2f_grid(rng))
+                elif what == "method":
+                    ch["regularization_method"] = rng.choice(["tikhonov", "cutoff"])
+                else:
+                    ch["random_state"] = rng.randint(0, 99)
+        elif etype == "ridge":
+            ch = dict(alpha=10.0 ** rng.uniform(-4, 1)) if rng.random() < 0.7 else dict(fit_intercept=rng.random() < 0.5)
+        else:
+            ch = dict(fit_intercept=rng.random() < 0.5)
+        idx = list(range(n))
+        rng.shuffle(idx)
+        ntr = rng.randint(max(6, 2 * p + 2), n - 3)
+        explicit = rng.random() < 0.5
+        steps.append(dict(X=X.tolist(), Y=Y.tolist(), measure=rng.choice(["gre", "grd", "lre"]),
+                          k=rng.randint(min(ntr, p + 3), ntr) if explicit else rng.randint(min(n // 2, p + 3), n // 2),
+                          train_idx=idx[:ntr] if explicit else None, test_idx=idx[ntr:] if explicit else None,
+                          set_params=ch))
+    return dict(kind="history", etype=etype, init=init, steps=steps,
+                scaler=rng.choice(["none", "explicit", "duck"]))
+
+
+def _build_est(etype, params):
+    from sklearn.linear_model import LinearRegression, Ridge
+    from skmatter.linear_model import Ridge2FoldCV
+    P = dict(params)
+    if "alphas" in P:
+        P["alphas"] = np.array(P["alphas"], dtype=float)
+    return {"r2f": Ridge2FoldCV, "ridge": Ridge, "lr": LinearRegression}[etype](**P)
+
+
+def _params_equal(a, b):
+    if set(a) != set(b):
+        return False
+    for k in a:
+        x, y = a[k], b[k]
+        if isinstance(x, np.ndarray) or isinstance(y, np.ndarray):
+            if not (np.shape(x) == np.shape(y) and np.array_equal(np.asarray(x), np.asarray(y))):
+                return False
+        elif x is not y and x != y:
+            return False
+    return True
+
+
+def _fitted_state(est):
+    return {a: np.array(getattr(est, a), dtype=float).copy() for a in ("cv_values_", "alpha_", "coef_", "intercept_")
+            if hasattr(est, a)}
+
+
+def _hist_call(step, est, scaler):
+    import skmatter.metrics as M
+    X, Y = np.array(step["X"]), np.array(step["Y"])
+    kw = dict(train_idx=None if step["train_idx"] is None else np.array(step["train_idx"]),
+              test_idx=None if step["test_idx"] is None else np.array(step["test_idx"]),
+              estimator=est, scaler=scaler)
+    with np.errstate(all="ignore"):
+        if step["measure"] == "lre":
+            return np.ravel(M.pointwise_local_reconstruction_error(X, Y, step["k"], **kw))
+        f = M.pointwise_global_reconstruction_error if step["measure"] == "gre" else M.pointwise_global_reconstruction_distortion
+        return np.ravel(f(X, Y, **kw))
+
+
+def run_history(h):
+    """(message, value_differs) or (None, False).  Each call with the long-lived objects is compared
+    with the same call on freshly constructed, equal-parameter objects: values, the fitted state
+    left on the estimator (the measures fit the passed object in place, they do not clone), and
+    the constructor parameters (must come back untouched)."""
+    import copy
+    est = _build_est(h["etype"], h["init"])
+    params = dict(h["init"])
+    scaler = make_scaler(dict(scaler=h["scaler"]))
+    close = lambda a, b: (np.shape(a) == np.shape(b)  # noqa: E731
+                          and bool(np.all(np.abs(a - b) <= 1e-12 + 1e-9 * np.maximum(np.abs(a), np.abs(b)))))
+    for t, step in enumerate(h["steps"]):
+        tag = "call %d/%d (%s, set_params(%s))" % (t + 1, len(h["steps"]), step["measure"],
+                                                   ", ".join("%s=%r" % kv for kv in sorted(step["set_params"].items()))[:160])
+        if step["set_params"]:
+            ch = dict(step["set_params"])
+            params.update(ch)
+            if "alphas" in ch:
+                ch["alphas"] = np.array(ch["alphas"], dtype=float)
+            est.set_params(**ch)
+        before = copy.deepcopy(est.get_params())
+        try:
+            v_old = _hist_call(step, est, scaler)
+        except Exception as e:  # noqa
+            v_old = e
+        after = est.get_params()
+        fresh = _build_est(h["etype"], params)
+        try:
+            v_new = _hist_call(step, fresh, make_scaler(dict(scaler=h["scaler"])))
+        except Exception as e:  # noqa
+            v_new = e
+        if isinstance(v_old, Exception) or isinstance(v_new, Exception):
+            if type(v_old) is not type(v_new):
+                return "%s: long-lived objects -> %r, fresh objects -> %r" % (tag, v_old, v_new), True
+            continue
+        if not _params_equal(before, after) or not _params_equal(after, fresh.get_params()):
+            return "%s: the measure changed the parameters of the user's estimator" % tag, False
+        if not close(v_old, v_new):
+            return ("%s: the measure depends on the estimator object's past: max deviation %.3g from the value "
+                    "obtained with a freshly constructed estimator of equal parameters" % (
+                        tag, float(np.max(np.abs(v_old - v_new))) if v_old.shape == v_new.shape else float("nan"))), True
+        so, sn = _fitted_state(est), _fitted_state(fresh)
+        for a in sn:
+            if a not in so or not close(so[a], sn[a]):
+                return "%s: fitted attribute %s left on the reused estimator differs from a fresh fit" % (tag, a), False
+    return None, False
+
+
+def run_round3b(ctx, stats):
+    n_ill, n_hist = (140, 45) if ctx.quick else (900, 300)
+    st = stats["round3b"] = dict(illcond={}, ill_gated={}, ill_max_ratio_to_bound=0.0, histories=0, history_calls=0,
+                                 history_types={})
+    seen_ill, seen_hist = {}, {}
+    for _ in range(n_ill):
+        c = gen_ill_case(ctx.rng)
+        r = run_ill_case(c)
+        v = ill_verdict(c, r)
+        key = "%s/%s" % (c["sub"], c["est"])
+        st["illcond"][key] = st["illcond"].get(key, 0) + 1
+        if isinstance(v, tuple):
+            st["ill_gated"][v[1]] = st["ill_gated"].get(v[1], 0) + 1
+        elif v:
+            st["ill_failures"] = st.get("ill_failures", 0) + 1
+            seen_ill[(c["sub"], c["est"])] = seen_ill.get((c["sub"], c["est"]), 0) + 1
+            if seen_ill[(c["sub"], c["est"])] <= 1 and len(seen_ill) <= 6:      # one replay per kind x estimator
+                C.report_violation(ctx, "C13 fails on the implementation: " + v, dict(case=c, observed=r), found_input=True)
+        elif "pw" in r:
+            st["ill_max_ratio_to_bound"] = max(st["ill_max_ratio_to_bound"], max(r["pw"]) / ill_bound(c)[0])
+    for _ in range(n_hist):
+        h = gen_history(ctx.rng, ctx.quick)
+        msg, valdiff = run_history(h)
+        st["histories"] += 1
+        st["history_calls"] += len(h["steps"])
+        st["history_types"][h["etype"]] = st["history_types"].get(h["etype"], 0) + 1
+        if msg:
+            st["history_failures"] = st.get("history_failures", 0) + 1
+            seen_hist[valdiff] = seen_hist.get(valdiff, 0) + 1
+            if seen_hist[valdiff] > 3:
+                continue
+            C.report_violation(ctx, ("C13 fails on the implementation: " if valdiff else "C13 object history: ") + msg,
+                               dict(case=h, correspondence="reused vs freshly constructed estimator / scaler objects"),
+                               found_input=valdiff)
+    return n_ill + n_hist
+
+
+
 def run(ctx):
     po = C.proof_obligations(ctx.prop)
     ncases = 700 if ctx.quick else 3600
@@ -811,6 +1123,7 @@ def run(ctx):
                            dict(case=cases[i], observed=recs[i], correspondence=corr), key=key, found_input=True)
     # round 3: the input-check functions and the scaler's rejection branches
     r3_cases, r3_recs, r3_mism, r3_broken, r3_ran = run_round3(ctx, stats)
+    n3b = run_round3b(ctx, stats)
     r3_seen = {}
     for i in r3_mism:
         # at most two replays per family and failure mode
@@ -842,7 +1155,7 @@ def run(ctx):
                    "scipy orthogonal_procrustes (+ numpy svd for the factor L of the PSD contract), skmatter Ridge2FoldCV "
                    "(cut-off form), argsort neighbour order, sklearn train_test_split for the default indices",
                    "binary64 rounding: agreement within rtol = 1e-8 + 256*eps*cond^2 (cond of the standardised training source)"],
-               evaluations=len(cases) + len(r3_cases), distinct_nontrivial=nontrivial,
+               evaluations=len(cases) + len(r3_cases) + n3b, distinct_nontrivial=nontrivial,
                round3_cases_compared_in_coq=r3_ran, round3_mismatches=len(r3_mism),
                rule="distinct (measure, estimator, width class, index mode, n, p, q) whose Coq correspondence ran and agreed",
                traces_validated_against_impl=len(idx) - len(set(mismatched) & set(idx)) + r3_ran - len(r3_mism),
@@ -863,6 +1176,15 @@ def replay(ctx, obj):
         print("replay:", "input check still differs: expected %s observed %s" % (exp, r) if bad
               else "input check agrees with its model on this input now")
         return 1 if bad else 0
+    if c.get("kind") == "illcond":
+        v = ill_verdict(c, run_ill_case(c))
+        bad = bool(v) and not isinstance(v, tuple)
+        print("replay:", v if bad else "zero clause holds on this input now")
+        return 1 if bad else 0
+    if c.get("kind") == "history":
+        msg, _ = run_history(c)
+        print("replay:", msg or "reused and fresh objects agree on this history now")
+        return 1 if msg else 0
     if c.get("kind") == "reject":
         r, (exp, vs) = run_reject_impl(c), reject_expected(c)
         bad = "other_error" in r or r["raises"] != exp
